@@ -18,9 +18,9 @@ variable {ι κ K : Type} [Fintype ι] [DecidableEq ι] [Fintype κ] [DecidableE
 variable [Field K] [LinearOrder K] [IsStrictOrderedRing K]
 
 /-- local covering condition at site `i` -/
-def CoversAt (π : ι → κ) (m : K) (l : List (Jump κ K)) (l' : List (Jump ι K)) (i : ι) : Prop :=
+def CoversAt (π : ι → κ) (c : K) (l : List (Jump κ K)) (l' : List (Jump ι K)) (i : ι) : Prop :=
   ((l'.filter (fun a => a.src = i)).map (Jump.relabel π)).Perm
-    ((l.filter (fun a => a.src = π i)).map (Jump.scale (1 / m)))
+    ((l.filter (fun a => a.src = π i)).map (Jump.scale c))
 
 omit [Fintype ι] [LinearOrder K] [IsStrictOrderedRing K] [Fintype κ] [DecidableEq κ] in
 theorem flux_relabel (π : ι → κ) (ξ : κ → K) (a : Jump ι K) :
@@ -35,16 +35,16 @@ theorem sum_partition_src (l : List (Jump ι K)) (f : Jump ι K → K) :
   exact this
 
 omit [Fintype ι] [LinearOrder K] [IsStrictOrderedRing K] [Fintype κ] in
-theorem Stationary_cover (π : ι → κ) (m : K) (l : List (Jump κ K)) (l' : List (Jump ι K))
-    (hc : ∀ i, CoversAt π m l l' i) (ξ : κ → K) (hs : Stationary l ξ) :
+theorem Stationary_cover (π : ι → κ) (c : K) (l : List (Jump κ K)) (l' : List (Jump ι K))
+    (hc : ∀ i, CoversAt π c l l' i) (ξ : κ → K) (hs : Stationary l ξ) :
     Stationary l' (fun i => ξ (π i)) := by
   intro i
   have h1 : ((l'.filter (fun a => a.src = i)).map (flux (fun j => ξ (π j)))).sum
       = (((l'.filter (fun a => a.src = i)).map (Jump.relabel π)).map (flux ξ)).sum := by
     rw [List.map_map]; rfl
   rw [h1, ((hc i).map (flux ξ)).sum_eq, List.map_map]
-  have h2 : ((l.filter (fun a => a.src = π i)).map (flux ξ ∘ Jump.scale (1 / m))).sum
-      = (1 / m) * ((l.filter (fun a => a.src = π i)).map (flux ξ)).sum := by
+  have h2 : ((l.filter (fun a => a.src = π i)).map (flux ξ ∘ Jump.scale c)).sum
+      = c * ((l.filter (fun a => a.src = π i)).map (flux ξ)).sum := by
     rw [← List.sum_map_mul_left]
     apply congrArg
     apply List.map_congr_left
@@ -54,53 +54,65 @@ theorem Stationary_cover (π : ι → κ) (m : K) (l : List (Jump κ K)) (l' : L
   rw [h2, hs (π i), mul_zero]
 
 omit [LinearOrder K] [IsStrictOrderedRing K] in
-theorem Q_cover (π : ι → κ) (m : ℕ) (hm : (m : K) ≠ 0)
+/-- regrouping a sum over ι by the fibres of π (all of size m) -/
+theorem sum_fibres (π : ι → κ) (m : ℕ)
+    (hfib : ∀ k : κ, (Finset.univ.filter (fun i => π i = k)).card = m) (F : κ → K) :
+    ∑ i, F (π i) = ∑ k, (m : K) * F k := by
+  rw [← Finset.sum_fiberwise (s := Finset.univ) (g := π) (f := fun i => F (π i))]
+  apply Finset.sum_congr rfl
+  intro k _
+  have : ∀ i ∈ Finset.univ.filter (fun i => π i = k), F (π i) = F k := by
+    intro i hi
+    rw [(Finset.mem_filter.1 hi).2]
+  rw [Finset.sum_congr rfl this, Finset.sum_const, hfib k, nsmul_eq_mul]
+
+omit [LinearOrder K] [IsStrictOrderedRing K] in
+/-- any per-jump quantity `g` that only depends on the relabelled jump sums over the cover to
+    `m c` times its sum over the base (g must be linear in the weight: `g (scale c a) = c g a`) -/
+theorem sum_cover (π : ι → κ) (m : ℕ) (c : K)
     (hfib : ∀ k : κ, (Finset.univ.filter (fun i => π i = k)).card = m)
-    (l : List (Jump κ K)) (l' : List (Jump ι K)) (hc : ∀ i, CoversAt π (m : K) l l' i) (η : κ → K) :
-    Q l' (fun i => η (π i)) = Q l η := by
-  unfold Q
-  congr 1
-  -- per-jump summand
-  set g : Jump κ K → K := fun a => a.r * (a.d + η a.dst - η a.src) ^ 2 with hg
-  have hl' : (l'.map fun a => a.r * (a.d + η (π a.dst) - η (π a.src)) ^ 2).sum
-      = ∑ i, (1 / (m : K)) * ((l.filter (fun a => a.src = π i)).map g).sum := by
+    (l : List (Jump κ K)) (l' : List (Jump ι K)) (hc : ∀ i, CoversAt π c l l' i)
+    (g : Jump κ K → K) (hg : ∀ a, g (Jump.scale c a) = c * g a) :
+    (l'.map fun a => g (Jump.relabel π a)).sum = (m : K) * c * (l.map g).sum := by
+  have hl' : (l'.map fun a => g (Jump.relabel π a)).sum
+      = ∑ i, c * ((l.filter (fun a => a.src = π i)).map g).sum := by
     rw [sum_partition_src]
     apply Finset.sum_congr rfl
     intro i _
-    have e1 : ((l'.filter (fun a => a.src = i)).map fun a => a.r * (a.d + η (π a.dst) - η (π a.src)) ^ 2)
+    have e1 : ((l'.filter (fun a => a.src = i)).map fun a => g (Jump.relabel π a))
         = (((l'.filter (fun a => a.src = i)).map (Jump.relabel π)).map g) := by
       rw [List.map_map]; rfl
     rw [e1, ((hc i).map g).sum_eq, List.map_map, ← List.sum_map_mul_left]
     apply congrArg
     apply List.map_congr_left
     intro a _
-    simp only [Function.comp, Jump.scale, hg]
-    ring
-  rw [hl', sum_partition_src l g]
-  -- regroup the sum over ι by fibres of π
-  have hfibre : ∀ F : κ → K, ∑ i, F (π i) = ∑ k, (m : K) * F k := by
-    intro F
-    rw [← Finset.sum_fiberwise (s := Finset.univ) (g := π) (f := fun i => F (π i))]
-    apply Finset.sum_congr rfl
-    intro k _
-    have : ∀ i ∈ Finset.univ.filter (fun i => π i = k), F (π i) = F k := by
-      intro i hi
-      rw [(Finset.mem_filter.1 hi).2]
-    rw [Finset.sum_congr rfl this, Finset.sum_const, hfib k, nsmul_eq_mul]
-  rw [hfibre (fun k => 1 / (m : K) * ((l.filter (fun a => a.src = k)).map g).sum)]
+    exact hg a
+  rw [hl', sum_partition_src l g,
+    sum_fibres π m hfib (fun k => c * ((l.filter (fun a => a.src = k)).map g).sum), Finset.mul_sum]
   apply Finset.sum_congr rfl
   intro k _
-  field_simp
+  ring
 
-/-- **Covering theorem.** The descriptions `l` (primitive) and `l'` (m-fold cover) have the same
-    minimum of `Q`. -/
-theorem Qmin_cover (π : ι → κ) (m : ℕ) (hm : (m : K) ≠ 0)
+omit [LinearOrder K] [IsStrictOrderedRing K] in
+theorem Q_cover (π : ι → κ) (m : ℕ) (c : K)
     (hfib : ∀ k : κ, (Finset.univ.filter (fun i => π i = k)).card = m)
-    (l : List (Jump κ K)) (l' : List (Jump ι K)) (hc : ∀ i, CoversAt π (m : K) l l' i)
+    (l : List (Jump κ K)) (l' : List (Jump ι K)) (hc : ∀ i, CoversAt π c l l' i) (η : κ → K) :
+    Q l' (fun i => η (π i)) = (m : K) * c * Q l η := by
+  unfold Q
+  have := sum_cover π m c hfib l l' hc (fun a => a.r * (a.d + η a.dst - η a.src) ^ 2)
+    (by intro a; simp only [Jump.scale]; ring)
+  simp only [Jump.relabel] at this
+  rw [this]; ring
+
+/-- **Covering theorem.** The minimum of `Q` over the m-fold cover `l'` (weights scaled by `c`) is
+    `m c` times the minimum over the base `l`. -/
+theorem Qmin_cover (π : ι → κ) (m : ℕ) (c : K)
+    (hfib : ∀ k : κ, (Finset.univ.filter (fun i => π i = k)).card = m)
+    (l : List (Jump κ K)) (l' : List (Jump ι K)) (hc : ∀ i, CoversAt π c l l' i)
     (hp' : (l'.map Jump.rev).Perm l') (hr' : ∀ a ∈ l', 0 ≤ a.r)
     (ξ : κ → K) (ξ' : ι → K) (hs : Stationary l ξ) (hs' : Stationary l' ξ') :
-    Q l ξ = Q l' ξ' := by
-  rw [← Q_cover π m hm hfib l l' hc ξ]
-  exact Q_stationary_unique l' hp' hr' _ ξ' (Stationary_cover π (m : K) l l' hc ξ hs) hs'
+    Q l' ξ' = (m : K) * c * Q l ξ := by
+  rw [← Q_cover π m c hfib l l' hc ξ]
+  exact (Q_stationary_unique l' hp' hr' _ ξ' (Stationary_cover π c l l' hc ξ hs) hs').symm
 
 end Onsager.Var
